@@ -65,8 +65,8 @@ TESTED_NOT_PROVED = [
     "preparation in the default mode: modelled and compared on every run, not covered by the invariance theorems (new hydrogen ids and "
     "h_pairs ids are allocated in numeric order: results are isomorphic, not renumbered)",
     "the two writings handed to the model are the same graph up to numbering and order (premise same_graph of the set-level theorems): "
-    "the oracle checks the parsed hosts for isomorphism; the premises side_okb are evaluated inside the model on every writing; the "
-    "component-aware bound comp_bound (premise for COMPONENT/BACKTRACK) is not evaluated per case",
+    "the oracle checks the parsed hosts for isomorphism; every other premise (side_okb_c, including the component-aware bound) is "
+    "evaluated inside the model on every writing",
     "repeated calls on the same reactor object / same template object return the same list (oracle; the model is a pure function)",
 ]
 LEVEL_TEXT = ("Machine-checked proof (Coq) over an executable model of the whole graph-level rule-application pipeline (SynRule preparation, "
